@@ -1466,6 +1466,7 @@ func c16ConcRun(t *testing.T, out *vOut, c int, cc c16Conc) {
 	var cArrived int
 	var cGate chan struct{}
 	var panics []string
+	transportRetries := 0
 	do := func(id string, body []byte, barrier bool) {
 		var rd io.Reader = bytes.NewReader(body)
 		if barrier && cc.clientBarrier {
@@ -1498,6 +1499,22 @@ func c16ConcRun(t *testing.T, out *vOut, c int, cc c16Conc) {
 			req.Header.Set("X-C16-Barrier", "1")
 		}
 		resp, err := client.Do(req)
+		for try := 1; err != nil && try <= 3; try++ {
+			// no HTTP answer at all (connection-level failure on a loaded machine): if the handler has no record of this request it is
+			// sent again (a plain reader: the barrier has been passed); a request the handler saw stays judged as it is
+			mu.Lock()
+			_, seenByHandler := got[id]
+			mu.Unlock()
+			if seenByHandler {
+				break
+			}
+			mu.Lock()
+			transportRetries++
+			mu.Unlock()
+			req2, _ := http.NewRequest(http.MethodPost, ts.URL, bytes.NewReader(body))
+			req2.Header.Set("X-C16-Id", id)
+			resp, err = client.Do(req2)
+		}
 		st := -1
 		if err == nil {
 			_, _ = io.Copy(io.Discard, resp.Body)
@@ -1584,6 +1601,7 @@ func c16ConcRun(t *testing.T, out *vOut, c int, cc c16Conc) {
 		}
 	}
 	out.Linef("obs conc total=%d exact=%d", total, exact)
+	out.Linef("stat conc_transport_retry %d", transportRetries)
 	out.Linef("stat conc_cases 1")
 	if cc.clientBarrier {
 		out.Linef("stat conc_client_barrier 1")
